@@ -72,8 +72,8 @@ MANIFEST = {
                 "translated_append_array / translated_append_array_self (a.append(b), a.append(a): chain of aPush (elem w j) = copySlots). The translator accepts bool locals, usize subtraction (64-bit wrap-around), and inlines private / static "
                 "helper members; loop state and read-only parameters are ordered by first assignment / first use; the proofs split on size/capacity, so a spare-capacity fast path or a helper-based restructuring of reserve "
                 "(harmless C04-h1, C04-h5) regenerates and still proves. "
-                "OPEN (translated and loops proved equal to copySlots / fillSlots, function-level equality with the model not proved; tied by the correspondence run only): Array(const Array&), operator=, "
-                "append(const T*, n), resize(n, a[i]) growing. A change of one of these C++ bodies changes the generated definition: the equality proof fails or the translator refuses -> broken tie, the check searches a failing input. "
+                "Third leg: translated_assign (a = b and a = a), translated_copy_constructor (Array a(b) on the destroyed variable, after translated_destructor), translated_append_range (a.append(&a[i], n), n > 0), "
+                "translated_resize_own_element (a.resize(n, a[i]) growing) - no OPEN statement left for Array.hpp: all 19 translated member functions are proved equal to the model operations. A change of one of these C++ bodies changes the generated definition: the equality proof fails or the translator refuses -> broken tie, the check searches a failing input. "
                 "Tie to the current headers on every run: exhaustive small scope per container, Array alias ops at every size/capacity boundary, a bucket-chain stream "
                 "(HashMap/HashSet/PoolMap with explicit bucket counts 1..5, keys of one bucket linked by append/prepend/positional insert in every order, then clear/assign/swap/copy/remove, "
                 "then re-use of the same keys), deep Map/MultiMap histories (every removal shape; tools/implcov.py: all 1320 instrumented lines of the eight headers executed), random histories, "
@@ -122,8 +122,7 @@ MANIFEST = {
     },
 }
 
-OPEN = {"C04": ["PropsArrTr: function-level equality translated C++ = model operation not proved for Array(const Array&), operator=, "
-               "append(const T*, n), resize(n, a[i]) growing (bodies translated, loops proved, chain lemma exec_copy_other / exec_copy_self proved; the composition is not written)"], "C05": []}
+OPEN = {"C04": [], "C05": []}
 
 # ---- translator: items per block of the node containers -> lean/Nstd/Generated/LifeConst.lean ---------------------------
 GEN_OUT = C.LEAN / "Nstd" / "Generated" / "LifeConst.lean"
